@@ -11,6 +11,7 @@ import io
 import itertools
 import json
 import os
+import shutil
 import signal
 import tempfile
 import zlib
@@ -273,24 +274,61 @@ def _impl_write(R, ds, ops, strategy, name, info=None):
     d = os.path.join(R.tmp, name)
     info = info or mkinfo(ds["sizes"], ds["cs"], ds["m"], ds["s"], ds["p"], ds["ie"], ds["de"])
     outs = []
+    # histories beyond "store everything, close once" (decided from the PRNG so that replays agree):
+    #  reuse: the caller hands every payload in ONE mutable buffer that it overwrites after each store;
+    #  twice: after the close, the same chunks are stored into a second, identical scale of the same
+    #         accessor and it is closed again (the pattern of compute_dyadic_scales); both scales must
+    #         end up with the same files
+    mode = R.extra["_force_mode"] if "_force_mode" in R.extra else R.rng.random()
+    reuse = mode < 0.25
+    twice = 0.25 <= mode < 0.45 and info["scales"][0]["key"] == KEY and len(info["scales"]) == 1
+    R.count("history:" + ("reused-buffer" if reuse else "second-scale-after-close" if twice else "plain"))
+    if twice:
+        info = json.loads(json.dumps(info))
+        info["scales"].append(dict(info["scales"][0], key="second"))
     with quiet(R.tmp), np.errstate(all="ignore"):
         kw = {} if strategy is None else {"strategy": strategy}
         acc = sfa.ShardedFileAccessor(d, **kw)
         acc.info = json.loads(json.dumps(info))
+        shared = bytearray()
         for (x, y, z, pl) in ops:
-            o = outcome_of(acc.store_chunk, pl, KEY, bbox(ds["cs"], x, y, z))
+            arg = pl
+            if reuse:
+                shared[:] = pl
+                arg = shared
+            o = outcome_of(acc.store_chunk, arg, KEY, bbox(ds["cs"], x, y, z))
+            if reuse:
+                shared[:] = b"\xa5" * len(shared)
             outs.append(["ok", "none"] if o[0] == "ok" else o)
         closed = outcome_of(acc.close)
+        if twice and closed[0] == "ok":
+            outs2 = []
+            for (x, y, z, pl) in ops:
+                o = outcome_of(acc.store_chunk, pl, "second", bbox(ds["cs"], x, y, z))
+                outs2.append(["ok", "none"] if o[0] == "ok" else o)
+            closed2 = outcome_of(acc.close)
+            f1, f2 = _read_dir(os.path.join(d, KEY)), _read_dir(os.path.join(d, "second"))
+            if outs2 != outs or closed2[0] != "ok" or f1 != f2:
+                R.violation("chunks stored into a second scale after an earlier close() are not written like the "
+                            "first scale's", {k: ds[k] for k in ("grid", "cs", "sizes", "m", "s", "p", "ie", "de")},
+                            {"second_close": closed2, "first_files": sorted(f1), "second_files": sorted(f2),
+                             "outcomes_equal": outs2 == outs})
+            shutil.rmtree(os.path.join(d, "second"), ignore_errors=True)
+            info["scales"].pop()
         atexit.unregister(acc.close)
+    files = _read_dir(os.path.join(d, KEY))
+    with open(os.path.join(d, "info"), "w") as f:
+        json.dump(info, f)
+    return outs, (["ok", "none"] if closed[0] == "ok" else closed), files, d
+
+
+def _read_dir(sd):
     files = {}
-    sd = os.path.join(d, KEY)
     if os.path.isdir(sd):
         for fn in sorted(os.listdir(sd)):
             with open(os.path.join(sd, fn), "rb") as f:
                 files[fn] = f.read()
-    with open(os.path.join(d, "info"), "w") as f:
-        json.dump(info, f)
-    return outs, (["ok", "none"] if closed[0] == "ok" else closed), files, d
+    return files
 
 
 def impl_fetch(R, d, ds, coords_list, via="url"):
